@@ -125,12 +125,17 @@ func runChansMerge(t *testing.T, n int, steps []mergeStep) ([]Ev, bool, string) 
 }
 
 func runReplicate(t *testing.T, nd int, vals int) ([]Ev, bool, string) {
+	return runReplicateBuf(t, nd, vals, 0)
+}
+
+// buf: capacity of every destination channel (0: the receivers are parked on unbuffered channels)
+func runReplicateBuf(t *testing.T, nd int, vals int, buf int) ([]Ev, bool, string) {
 	return bubble(t, func(r *Run) {
 		src := make(chan int)
 		dsts := make([]chan int, nd)
 		wo := make([]chan<- int, nd)
 		for j := range dsts {
-			dsts[j] = make(chan int)
+			dsts[j] = make(chan int, buf)
 			wo[j] = dsts[j]
 			j := j
 			go func() {
@@ -431,6 +436,16 @@ func TestMerge(t *testing.T) {
 			leaks++
 		}
 		writeRuns(w, &runs, evs, leak, msg, Ev{"kind": "repl", "n": 1, "nd": nd})
+	}
+	// wide fan-outs (around and beyond a machine word of destinations), parked receivers and buffered destinations
+	for _, nd := range []int{31, 32, 33, 63, 64, 65, 130} {
+		for _, buf := range []int{0, 2} {
+			evs, leak, msg := runReplicateBuf(t, nd, 2, buf)
+			if leak {
+				leaks++
+			}
+			writeRuns(w, &runs, evs, leak, msg, Ev{"kind": "repl", "n": 1, "nd": nd})
+		}
 	}
 	for i := 0; i < n; i++ {
 		arity := i % 4
